@@ -959,6 +959,15 @@ func applyKill(st *State, loc string, kind int, idx *Term) {
 			applyKill(st, l, KillAny, nil)
 		}
 	}
+	if idx == nil && kind&(KillAny|KillStable) == 0 && kind&(kind-1) != 0 {
+		// several kinds of slot stores (from a callee's summary): a fact survives iff it survives each kind
+		for bit := 1; bit <= kind; bit <<= 1 {
+			if kind&bit != 0 {
+				applyKill(st, loc, bit, nil)
+			}
+		}
+		return
+	}
 	st.Killed[loc] |= kind
 	if loc == "ctx.ViewNumber" {
 		st.logEv("ev:epoch-write")
@@ -1376,6 +1385,12 @@ func (w *Walker) evalCallOperands(call *ast.CallExpr, st *State) (recv []*Term, 
 		cur = next
 	}
 	for _, c := range cur {
+		// a field handed over by address may be written by the callee
+		for _, t := range c.args {
+			if t != nil && t.K == KCall && t.Name == "addr" && len(t.Args) == 1 && t.Args[0].K == KField {
+				w.write(locOf(t.Args[0].Name), KillAny, nil, nil, c.st, call)
+			}
+		}
 		recv = append(recv, c.recv)
 		args = append(args, c.args)
 		sts = append(sts, c.st)
